@@ -27,8 +27,9 @@ std::istream & operator>>(std::istream & is, StringDelimiter<delimiter>& output)
 
 inline bool file_exists(std::filesystem::path p)
 {
-    std::ifstream infile(p.string());
-    return infile.good();
+    // Directories can be opened too; only regular files are files to resolve to
+    std::error_code ec;
+    return std::filesystem::is_regular_file(p, ec);
 }
 
 std::optional<sqf::runtime::fileio::pathinfo> sqf::fileio::impl_default::get_info_virtual(std::string_view viewVirtual, sqf::runtime::fileio::pathinfo current) const
